@@ -4,6 +4,12 @@ import json, os
 HERE = os.path.dirname(os.path.dirname(os.path.abspath(__file__)))
 props = [json.loads(l)["id"] for l in open(os.path.join(HERE, "properties.jsonl"))]
 claims = json.load(open(os.path.join(HERE, "tools", "claims.json")))
+# one file per later-built property: tools/claims.d/Cnn.json = {"engine","level","technique","text","note"}
+cd = os.path.join(HERE, "tools", "claims.d")
+if os.path.isdir(cd):
+    for f in sorted(os.listdir(cd)):
+        if f.endswith(".json"):
+            claims["claimed"][f[:-5]] = json.load(open(os.path.join(cd, f)))
 checks = []
 na = []
 for p in props:
